@@ -276,7 +276,13 @@ func (node *harness) NextAction(ctx context.Context, flow Flow) chan IAction {
 	})
 
 	response := make(chan chan IAction, 1)
-	node.mch <- nextHarnessActionMessage{flow: flow, response: response}
+	select {
+	case node.mch <- nextHarnessActionMessage{flow: flow, response: response}:
+	case <-ctx.Done():
+		// the loop has ended with its context and the inbox is full (more tokens than it
+		// holds arrived since)
+		return make(chan IAction)
+	}
 	select {
 	case out := <-response:
 		return out
